@@ -2,4 +2,19 @@
 
 package verifsim
 
-import _ "verifsim/engines/execsim"
+import (
+	"os"
+	"testing"
+
+	"verifsim/engines/execsim"
+)
+
+// TestExecsimChild is the body of the one-shot fresh processes the C13 engine
+// starts to see a genesis block executed by a process with no history. It only
+// runs when asked to.
+func TestExecsimChild(t *testing.T) {
+	if os.Getenv("VERIF_EXECSIM_CHILD") == "" {
+		t.Skip("not an execsim child")
+	}
+	execsim.ChildMain(t, os.Stdin, os.NewFile(3, "answers"))
+}
